@@ -81,6 +81,7 @@ func run(o *options) int {
 		return undecided("cannot read contracts: %v", err)
 	}
 	p.Cs = cs
+	p.Known = loadKnown(o.verif)
 	loadSecs := time.Since(start).Seconds()
 
 	// select units
